@@ -26,7 +26,9 @@ USES_MAP = {"RunWith", "RunWithV", "OutputWith", "Exec"}
 FNSEL = {"Run": "FRun", "RunV": "FRunV", "RunWith": "FRunWith", "RunWithV": "FRunWithV", "Output": "FOutput",
          "OutputWith": "FOutputWith", "Exec": "FExec"}
 VERBOSE = "MAGEFILE_VERBOSE"
-VERBOSE_VALUES = ["1", "1", "true", "0", ""]
+VERBOSE_VALUES = ["1", "1", "true", "0", "", "t", "TRUE", "yes", "false"]
+TRUE_SPELLINGS = ("1", "t", "T", "TRUE", "true", "True")          # strconv.ParseBool
+SCRIPTS = ["--exit=3", "--exit=1", "--exit=3", "--quiet", "--exit=0", "--exit=42"]   # argvchild: scripted failing / silent calls
 PLAIN = [w for w in WORDS if "$" not in w]
 SLOW_REF = "${Z}"                # Z is never set: expands to nothing, slowly when repeated
 PAR_BOUND_MS = 15000             # how long all children of one concurrent case may take to be alive together
@@ -58,12 +60,12 @@ def gen_slice(rng, arrays, want_spare=False, nonempty=False):
     return {"nil": False, "id": i, "off": off, "len": ln, "cap": cap}
 
 
-def gen_arrays(rng):
+def gen_arrays(rng, scripts=False):
     arrays = []
     for _ in range(rng.choice([1, 2, 2, 3, 3, 4, 5])):
         n = rng.choice([0, 1, 2, 2, 3, 3, 4, 5, 6])
         words = PLAIN if rng.random() < 0.4 else WORDS      # arrays without any $ reference are frequent
-        arrays.append([rng.choice(words) for _ in range(n)])
+        arrays.append([rng.choice(SCRIPTS) if scripts and rng.random() < 0.09 else rng.choice(words) for _ in range(n)])
     if all(len(a) < 2 for a in arrays):
         arrays.append([rng.choice(WORDS) for _ in range(3)])
     return arrays
@@ -89,17 +91,23 @@ def gen_closures(rng, arrays):
 
 
 def gen_history(rng):
-    arrays = gen_arrays(rng)
+    arrays = gen_arrays(rng, scripts=True)
     cls = gen_closures(rng, arrays)
-    ops = []
+    mk = [{"op": "mk", "kind": c["kind"], "cmd": c["cmd"], "baked": c["baked"]} for c in cls]
+    rng.shuffle(mk)
+    ops = [mk.pop()]                      # closures are made at any point of the history, under the environment of that moment
+    made = 1
     for _ in range(rng.choice([1, 2, 3, 3, 4, 4, 5, 6, 8, 10])):
         r = rng.random()
-        if r < 0.07:
+        if mk and r < 0.25:
+            ops.append(mk.pop())
+            made += 1
+        elif r < 0.12:
             ops.append({"op": "setenv", "k": VERBOSE, "v": rng.choice(VERBOSE_VALUES)})
-        elif r < 0.25:
+        elif r < 0.27:
             ops.append({"op": "setenv", "k": rng.choice(VARS), "v": rng.choice(VALUES)})
         elif r < 0.70:
-            c = rng.randrange(len(cls))
+            c = rng.randrange(made)
             if ops and ops[-1]["op"] == "call" and rng.random() < 0.5:
                 c = ops[-1]["c"]
             extra = dict(NILS) if rng.random() < 0.3 else gen_slice(rng, arrays, nonempty=rng.random() < 0.8)
@@ -111,9 +119,9 @@ def gen_history(rng):
                 emap = None if rng.random() < 0.2 else {v: rng.choice(VALUES) for v in VARS + [UNSET] if rng.random() < 0.35}
             args = dict(NILS) if rng.random() < 0.1 else gen_slice(rng, arrays)
             ops.append({"op": "direct", "fn": fn, "emap": emap, "cmd": rng.choice(CMDS), "args": args})
-    if not any(o["op"] != "setenv" for o in ops):
+    if not any(o["op"] in ("call", "direct") for o in ops):
         ops.append({"op": "call", "c": 0, "extra": dict(NILS)})
-    return {"kind": "hist", "env": gen_env(rng), "arrays": arrays, "closures": cls, "ops": ops}
+    return {"kind": "hist", "env": gen_env(rng), "arrays": arrays, "closures": [], "ops": ops}
 
 
 def gen_par(rng, reps):
@@ -194,28 +202,55 @@ def run_chunks(ctx, binp, child, cases, tag, jobs=None):
 
 
 # ------------------------------------------------------------------ oracle
+def all_closures(case):
+    return list(case.get("closures") or []) + [{"kind": o["kind"], "cmd": o["cmd"], "baked": o["baked"]} for o in case["ops"] if o["op"] == "mk"]
+
+
+def is_verbose(env):
+    return env.get(VERBOSE, "") in TRUE_SPELLINGS
+
+
+def child_behaviour(argv):
+    """harness/argvchild as a function of its argv: (stdout, exit status)"""
+    args = argv[1:]
+    code = 0
+    for a in args:
+        m = re.fullmatch(r"--exit=(\d+)", a, flags=re.ASCII)
+        if m and int(m.group(1)) <= 255:
+            code = int(m.group(1))
+    return ("" if "--quiet" in args else " ".join(args) + "\n"), code
+
+
+def trim_nl(t):
+    return t[:-1] if t.endswith("\n") else t
+
+
 def contents(arrays, s):
     return [] if s.get("nil") else arrays[s["id"]][s["off"]:s["off"] + s["len"]]
 
 
 def expected_call(case, env, o):
-    """(argv the child must receive, text that must be handed back) for a call operation"""
+    """the reference of ONE call, from this call's arguments and the environment at this moment alone:
+    (argv the child must receive, text handed back, bytes on os.Stdout, exit status of the error)"""
     arrays = case["arrays"]
-    if o["op"] == "call" or o["op"] == "par":
-        raise ValueError
     emap = (o.get("emap") or {}) if o["fn"] in USES_MAP else {}
     look = lambda k: emap[k] if k in emap else env.get(k, "")
     argv = [py_expand(x, look) for x in [o["cmd"]] + contents(arrays, o["args"])]
-    text = " ".join(argv[1:])
-    out = text if o["fn"] in ("Output", "OutputWith") else (text + "\n" if o["fn"] == "Exec" else None)
-    return argv, out
+    text, code = child_behaviour(argv)
+    fn = o["fn"]
+    out = trim_nl(text) if fn in ("Output", "OutputWith") else (text if fn == "Exec" else None)
+    stdout = text if (fn in ("RunV", "RunWithV") or (fn in ("Run", "RunWith") and is_verbose(env))) else ""
+    return argv, out, stdout, code
 
 
 def expected_closure(case, env, c, extra):
-    cl = case["closures"][c]
+    cl = all_closures(case)[c]
     look = lambda k: env.get(k, "")
     argv = [py_expand(x, look) for x in [cl["cmd"]] + contents(case["arrays"], cl["baked"]) + contents(case["arrays"], extra)]
-    return argv, (" ".join(argv[1:]) if cl["kind"] == "out" else None)
+    text, code = child_behaviour(argv)
+    if cl["kind"] == "out":
+        return argv, trim_nl(text), "", code          # like sh.Output
+    return argv, None, (text if is_verbose(env) else ""), code   # like sh.Run: os.Stdout if verbose AT THIS CALL
 
 
 def par_extras(o):
@@ -259,20 +294,30 @@ def oracle(case, ans):
             env[o["k"]] = o["v"]
         elif o["op"] in ("call", "direct"):
             if o["op"] == "call":
-                argv, out = expected_closure(case, env, o["c"], o["extra"])
-                what = "closure %d (%s) called with %r" % (o["c"], case["closures"][o["c"]]["kind"], contents(arrays, o["extra"]))
+                argv, out, stdout, code = expected_closure(case, env, o["c"], o["extra"])
+                cl = all_closures(case)[o["c"]]
+                what = "closure %d (%s, made by operation %d) called with %r" % (
+                    o["c"], "OutCmd" if cl["kind"] == "out" else "RunCmd",
+                    ([j for j, x in enumerate(case["ops"]) if x["op"] == "mk"] + [-1])[o["c"] - len(case.get("closures") or [])] if o["c"] >= len(case.get("closures") or []) else -1,
+                    contents(arrays, o["extra"]))
+                ref = "sh.Output" if cl["kind"] == "out" else "sh.Run"
             else:
-                argv, out = expected_call(case, env, o)
+                argv, out, stdout, code = expected_call(case, env, o)
                 what = "sh.%s(%r, %r...)" % (o["fn"], o["cmd"], contents(arrays, o["args"]))
+                ref = "this call alone"
                 before = o.get("emap")
                 if (ob.get("emap") or {}) != (before or {}) or (before is None) != bool(ob.get("emap_nil")):
                     bad.append("op %d: %s changed the env map: %r -> %r" % (i, what, before, ob.get("emap")))
             if ob["argv"] != [argv]:
                 bad.append("op %d: %s started %r, expected exactly one child with argv %r (environment at the time of the call)" % (i, what, ob["argv"], argv))
-            if ob["err"]:
-                bad.append("op %d: %s returned error %r" % (i, what, ob["err"]))
+            if ob["status"] != code or bool(ob["err"]) != (code != 0):
+                bad.append("op %d: %s returned error %r (exit status %d), the child exits with %d" % (i, what, ob["err"], ob["status"], code))
             if ob["out"] != out:
-                bad.append("op %d: %s handed back %r, expected %r" % (i, what, ob["out"], out))
+                bad.append("op %d: %s handed back %r, expected %r (%s with the same argv in the environment of this call; what earlier calls printed is not part of it)" % (
+                    i, what, ob["out"], out, ref))
+            if ob["stdout"] != stdout:
+                bad.append("op %d: %s wrote %r to os.Stdout, expected %r (%s with the same argv; MAGEFILE_VERBOSE=%r at the time of this call)" % (
+                    i, what, ob["stdout"], stdout, ref, env.get(VERBOSE)))
         elif o["op"] == "par":
             exp = par_expected(case, env, o)
             for ri, rp in enumerate(ob.get("reps") or []):
@@ -329,6 +374,8 @@ def t_cls(cls):
 
 
 def t_op(o):
+    if o["op"] == "mk":
+        return "(MkClosure %s %s %s)" % ("KOut" if o["kind"] == "out" else "KRun", coq_str(o["cmd"]), t_slice(o["baked"]))
     if o["op"] == "setenv":
         return "(SetEnv %s %s)" % (coq_str(o["k"]), coq_str(o["v"]))
     if o["op"] == "call":
@@ -347,8 +394,9 @@ def full_env(case):
 def hist_term(case, ans):
     obs = []
     for o, ob in zip(case["ops"], ans["obs"]):
-        obs.append("{| i_argv := %s; i_out := %s; i_snap := %s; i_emap := %s |}" % (
-            coq_list([t_strs(a) for a in ob["argv"]]), t_optstr(ob["out"]), t_heap(ob["snap"]), t_env(ob.get("emap") or {})))
+        obs.append("{| i_argv := %s; i_out := %s; i_stdout := %s; i_status := %d; i_snap := %s; i_emap := %s |}" % (
+            coq_list([t_strs(a) for a in ob["argv"]]), t_optstr(ob["out"]), coq_str(ob.get("stdout") or ""), ob.get("status") or 0,
+            t_heap(ob["snap"]), t_env(ob.get("emap") or {})))
     return "{| c_env := %s; c_heap := %s; c_cls := %s; c_ops := %s; c_obs := %s |}" % (
         t_env(full_env(case)), t_heap(case["arrays"]), t_cls(case["closures"]), coq_list([t_op(o) for o in case["ops"]]), coq_list(obs))
 
@@ -483,11 +531,12 @@ def run(ctx):
     # coverage
     cov = ctx.coverage
     seen, nontriv = set(), 0
-    kinds = {"setenv": 0, "call": 0, "direct": 0, "par": 0}
+    kinds = {"setenv": 0, "mk": 0, "call": 0, "direct": 0, "par": 0}
     byfn, cmdforms = {}, {}
     feat = {"call_without_extra": 0, "call_after_setenv": 0, "repeated_call_of_one_closure": 0, "baked_with_spare_capacity": 0,
             "extra_aliases_baked_array": 0, "offset_slices": 0, "closures_sharing_an_array": 0, "dollar_in_baked": 0, "env_map_overrides": 0,
-            "par_repetitions": 0, "calls_in_verbose_mode": 0, "verbose_direct_calls_without_dollar": 0, "concurrent_slow_expansion_cases": 0}
+            "par_repetitions": 0, "failing_calls": 0, "output_family_call_after_failed_call_with_output": 0,
+            "runcmd_called_under_other_verbose_than_made": 0, "calls_in_verbose_mode": 0, "verbose_direct_calls_without_dollar": 0, "concurrent_slow_expansion_cases": 0}
     par_baked, par_goroutines, par_targets = {}, {}, {}
     overlap = {"repetitions": 0, "all_children_alive_together": 0, "max_wait_ms": 0}
     for c, a in zip(cases, answers):
@@ -502,26 +551,39 @@ def run(ctx):
         calls_of = {}
         setenv_seen = False
         verbose = c["env"].get(VERBOSE, "")
-        for o in c["ops"]:
+        allcls = all_closures(c)
+        mk_verbose = [None] * len(c.get("closures") or [])     # verbose setting under which each closure was made
+        failed_with_output = False
+        for o, ob in zip(c["ops"], (a.get("obs") or [])):
             kinds[o["op"]] += 1
+            if o["op"] == "mk":
+                mk_verbose.append(verbose in TRUE_SPELLINGS)
+            if o["op"] in ("call", "direct"):
+                outfam = (o["op"] == "call" and allcls[o["c"]]["kind"] == "out") or (o["op"] == "direct" and o["fn"] in ("Output", "OutputWith"))
+                feat["output_family_call_after_failed_call_with_output"] += outfam and failed_with_output
+                if ob.get("status") and ob.get("out"):
+                    failed_with_output = True
+                feat["failing_calls"] += bool(ob.get("status"))
             if o["op"] == "setenv":
                 setenv_seen = True
                 if o["k"] == VERBOSE:
                     verbose = o["v"]
-            is_verbose = verbose in ("1", "true")
+            is_verbose = verbose in TRUE_SPELLINGS
             if o["op"] in ("call", "direct"):
                 feat["calls_in_verbose_mode"] += is_verbose
             if o["op"] == "call":
                 ncalls += 1
                 calls_of[o["c"]] = calls_of.get(o["c"], 0) + 1
-                cl = c["closures"][o["c"]]
+                cl = allcls[o["c"]]
+                feat["runcmd_called_under_other_verbose_than_made"] += (cl["kind"] == "run" and mk_verbose[o["c"]] is not None and mk_verbose[o["c"]] != is_verbose)
                 feat["call_without_extra"] += o["extra"]["len"] == 0
                 feat["call_after_setenv"] += setenv_seen
                 feat["baked_with_spare_capacity"] += cl["baked"]["cap"] > cl["baked"]["len"]
                 feat["extra_aliases_baked_array"] += (not o["extra"]["nil"] and not cl["baked"]["nil"] and o["extra"]["id"] == cl["baked"]["id"])
                 feat["offset_slices"] += cl["baked"]["off"] > 0 or o["extra"]["off"] > 0
                 feat["dollar_in_baked"] += any("$" in x for x in contents(c["arrays"], cl["baked"]))
-                cmdforms[c["_abstract"]["closures"][o["c"]]["cmd"]] = cmdforms.get(c["_abstract"]["closures"][o["c"]]["cmd"], 0) + 1
+                acmd = all_closures(c["_abstract"])[o["c"]]["cmd"]
+                cmdforms[acmd] = cmdforms.get(acmd, 0) + 1
             if o["op"] == "direct":
                 ncalls += 1
                 byfn[o["fn"]] = byfn.get(o["fn"], 0) + 1
@@ -538,7 +600,7 @@ def run(ctx):
                 par_goroutines[ng] = par_goroutines.get(ng, 0) + 1
                 feat["concurrent_slow_expansion_cases"] += any(SLOW_REF * 20 in x for x in contents(c["arrays"], c["closures"][o["c"]]["baked"]))
         feat["repeated_call_of_one_closure"] += any(v >= 2 for v in calls_of.values())
-        ids = [cl["baked"]["id"] for cl in c["closures"] if not cl["baked"]["nil"]]
+        ids = [cl["baked"]["id"] for cl in allcls if not cl["baked"]["nil"]]
         feat["closures_sharing_an_array"] += len(ids) != len(set(ids))
         if h not in seen:
             seen.add(h)
@@ -548,8 +610,9 @@ def run(ctx):
     cov["distinct_nontrivial"] = nontriv
     cov["rule"] = ("histories: 1-5 arrays of 0-6 cells ($V, ${V}, mixed and literal words in every cell, spare cells included), 1-3 closures "
                    "(RunCmd/OutCmd, cmd literal or $CHILD-style, baked slice of random offset/len/cap, often spare capacity, sometimes two closures on one array), "
-                   "1-10 operations setenv (V..Y and MAGEFILE_VERBOSE unset/0/1/true) | closure call (extra nil or any slice, may alias the baked array) | the seven direct functions with env maps; "
-                   "40% of the arrays hold no $ reference at all; "
+                   "2-12 operations setenv (V..Y and MAGEFILE_VERBOSE in ParseBool spellings) | mk (closure creation at any point) | closure call (extra nil or any slice, may alias the baked array) | the seven direct functions with env maps; "
+                   "40% of the arrays hold no $ reference at all; 9% of the cells script the child (--exit=N: print then fail, --quiet); "
+                   "observed per call: argv, text handed back, bytes on os.Stdout (fresh file per call), exit status, all arrays, env map; "
                    "concurrent cases: 2-6 goroutines released together on one closure with 1,2,3,4,8,16,17,19,21 or 33 baked-in arguments (caller slice with 0-2 spare cells), "
                    "1-2 extra arguments each, baked-in arguments that are slow to expand (thousands of ${Z}) so the calls overlap inside Exec, gate-held children, the gate opens only when ALL children of the case are alive together (overlap is an observable, bound 15 s), "
                    "a quarter of the concurrent cases call sh.Output/sh.Run directly (reference behaviour); "
